@@ -40,7 +40,7 @@ def schema_for(c):
             {"name": "id", "type": tr("ID", ["R"]), "dep": None}, {"name": "a", "type": tr("Int"), "dep": dep(c["depNodeA"])}]},
         {"kind": "OBJECT", "name": "T", "interfaces": ["Node"], "fields": [
             {"name": "id", "type": tr("ID", ["R"]), "dep": None}, {"name": "a", "type": tr("Int"), "dep": dep(c["depA"])},
-            {"name": "b", "type": tr("String"), "dep": dep(c["depB"])}, {"name": "c", "type": tr("T"), "dep": dep(c["depC"])},
+            {"name": "b", "type": tr("ID"), "dep": dep(c["depB"])}, {"name": "c", "type": tr("T"), "dep": dep(c["depC"])},
             {"name": "d", "type": tr("Int"), "dep": None}]},
         {"kind": "OBJECT", "name": "U", "interfaces": ["Node"], "fields": [
             {"name": "id", "type": tr("ID", ["R"]), "dep": None}, {"name": "a", "type": tr("Int"), "dep": None}]},
